@@ -218,9 +218,9 @@ func (m *Model) clean(t Target) {
 
 // Judged tells whether the behaviour of t is determined by the statements.
 func (m *Model) Judged(t Target) bool {
-	// a method of the interface variable that is not mocked while its sibling is: the statement does not say
-	// what the replaced variable does for it
-	if (t == TXA && len(m.Owners(TXB)) > 0 || t == TXB && len(m.Owners(TXA)) > 0) && len(m.Owners(t)) == 0 {
+	// (a method of the interface variable that is not mocked while its sibling is answers as C07 says: a
+	// 'method not implements' panic - see Expect; after a Cancel of the sibling it is Dirty)
+	if (t == TXA || t == TXB) && m.Dirty[map[Target]Target{TXA: TXB, TXB: TXA}[t]] && len(m.Owners(t)) == 0 {
 		return false
 	}
 	if m.JustRestored[t] {
@@ -244,7 +244,9 @@ func (m *Model) Expect(t Target) []string {
 	for i, a := range ProbeArgs {
 		switch {
 		case c == nil || c.Kind == 0:
-			if t == TXA || t == TXB {
+			if sib := map[Target]Target{TXA: TXB, TXB: TXA}[t]; (t == TXA || t == TXB) && len(m.Owners(sib)) > 0 {
+				out[i] = "panic:not implements" // the variable holds the mock of the sibling method
+			} else if t == TXA || t == TXB {
 				out[i] = "panic:nil pointer"
 			} else {
 				out[i] = fmt.Sprint(OrigOf(t, a))
